@@ -34,3 +34,5 @@ mod c09;
 mod c15;
 #[cfg(all(kani, feature = "val"))]
 mod c14;
+#[cfg(all(kani, feature = "val"))]
+mod c12v;
